@@ -854,14 +854,19 @@ def run(ctx: Context):
                           key, sorted(t_vals), sorted(f_vals), loose))
 
     # -- 8. UnknownNode: an alleged read-only / immutable cap never sits in the write slot -----------------
-    with ctx.rule("C16.8", "R3", "UnknownNode.__init__: a cap that the path taken found to carry the 'ro.'/'imm.' prefix is "
-                  "never stored in rw_uri; the same cap value never ends up in both rw_uri and ro_uri; a non-empty rw_uri is "
-                  "never paired with a ro_uri found to be alleged-immutable", expected=2) as r:
+    _uw = {}
+
+    def unknown_walk():
+        """Abstract interpretation of UnknownNode.__init__ shared by C16.8 / C16.11 / C16.12."""
+        if "w" in _uw:
+            return _uw["w"]
         fn = idx.func("unknown:UnknownNode.__init__")
         cfg = fn.cfg()
         plain = N()
         params = [p for p in fn.params if p != "self"]
-        SLOTS = ("self.rw_uri", "self.ro_uri")
+        fs_fn = idx.func("uri:from_string")
+        fs_u = first_positional_params(fs_fn)[0]
+        unk_cls = idx.cls("uri:UnknownURI")
 
         def toks(vals, e):
             """Parameter values the expression may *be* (copies only; a derived string is a different cap)."""
@@ -878,6 +883,13 @@ def run(ctx: Context):
                 return toks(vals, e.body) | toks(vals, e.orelse)
             if isinstance(e, ast.NamedExpr):
                 return toks(vals, e.value)
+            if isinstance(e, ast.Call):
+                # the parse of a given cap, and the error of that parse, are values of their own: "parse(t)", "error(t)"
+                if call_tail(e) == "from_string" and idx.resolve_expr(fn.module, e.func) in (fs_fn, None):
+                    a = arg(e, 0, fs_u)
+                    return frozenset("parse(%s)" % t for t in (toks(vals, a) if a is not None else ()) if "(" not in t)
+                if call_tail(e) == "get_error" and isinstance(e.func, ast.Attribute) and not e.args and not e.keywords:
+                    return frozenset("error(%s)" % t[6:-1] for t in toks(vals, e.func.value) if t.startswith("parse("))
             return frozenset()
 
         def bind(vals, t, v, new):
@@ -910,7 +922,11 @@ def run(ctx: Context):
                     subj, kind = vals.get(pt[0], frozenset()), pt[1]
                 else:
                     f = plain.cmp(n.ast, pol)
-                    if f and f[0] in ("truth", "false") and isinstance(n.ast, (ast.Name, ast.Attribute)):
+                    c = n.ast
+                    if isinstance(c, ast.Call) and call_name(c) == "isinstance" and len(c.args) == 2 \
+                            and idx.resolve_expr(fn.module, c.args[1]) is unk_cls:
+                        subj, kind = toks(vals, c.args[0]), "unknown"       # the parse gave / did not give an UnknownURI
+                    elif f and f[0] in ("truth", "false") and isinstance(n.ast, (ast.Name, ast.Attribute, ast.Call)):
                         subj, kind = toks(vals, n.ast), "truth"
                     elif f and f[0] == "is" and "None" in f[1:] and isinstance(n.ast, ast.Compare) \
                             and isinstance(n.ast.left, (ast.Name, ast.Attribute)):
@@ -940,6 +956,14 @@ def run(ctx: Context):
 
         init = (tuple(sorted((p, frozenset([p])) for p in params)), frozenset())
         visited, parent = explore(cfg, init, transfer)
+        _uw["w"] = (fn, cfg, toks, visited, parent)
+        return _uw["w"]
+
+    with ctx.rule("C16.8", "R3", "UnknownNode.__init__: a cap that the path taken found to carry the 'ro.'/'imm.' prefix is "
+                  "never stored in rw_uri; the same cap value never ends up in both rw_uri and ro_uri; a non-empty rw_uri is "
+                  "never paired with a ro_uri found to be alleged-immutable", expected=2) as r:
+        (fn, cfg, toks, visited, parent) = unknown_walk()
+        SLOTS = ("self.rw_uri", "self.ro_uri")
         r.count(len(visited))
         n_store = 0
         rw_nodes = [n for n in cfg.find(stores("self.rw_uri"))
@@ -994,3 +1018,80 @@ def run(ctx: Context):
         for (fn, n, msg) in pw.lost:
             r.violation(fn, fn.loc(n.ast), msg + ": a cap parsed in an ordinary context is handed to a caller that asked for "
                         "a deep-immutable interpretation")
+
+    # -- 10. a refused cap is reported as refused ---------------------------------------------------------
+    with ctx.rule("C16.10", "R3", "from_string (and helpers): once a recognised kind was refused (its prefix test held and "
+                  "can_be_writeable/can_be_mutable was found false) every return gives an UnknownURI whose error is set: "
+                  "UnknownNode and the node maker drop the cap only when the error says so", expected=1) as r:
+        pw = parse_walk()
+        unk = idx.cls("uri:UnknownURI")
+        FLAGS = ("can_be_mutable", "can_be_writeable")
+        n_refusals = 0
+        gated = sorted({fn.qual for (fn, di, n, k, call) in pw.sites if RO[k.qual] is not True or MUT[k.qual] is not False})
+        for q in gated:
+            (fn, di) = pw.funcs[q]
+            cfg = fn.cfg()
+            fnorm = FlowNorm(fn)
+
+            def kind_test(n, fn=fn):
+                """A test `x.startswith(<constant bytes>)` that is not one of the two alleged prefixes."""
+                c = n.ast
+                if n.kind == "test" and isinstance(c, ast.Call) and call_tail(c) == "startswith" and len(c.args) == 1:
+                    try:
+                        v = F.fold(c.args[0], fn.module, None)
+                    except NotConstant:
+                        return False
+                    return isinstance(v, bytes) and v not in PREFIX.values()
+                return False
+
+            def transfer(n, lab, nxt, st, fnorm=fnorm, kind_test=kind_test):
+                flag_false, matched, nones = st
+                if n.kind == "test" and isinstance(lab, tuple):
+                    f = fnorm.edge_fact(n, lab)
+                    if f and f[0] == "false" and f[1] in FLAGS:
+                        flag_false = True
+                    if lab[0] == "T" and kind_test(n):
+                        matched = True
+                stored = node_stores(n)
+                if stored:
+                    a = n.ast
+                    val = a.value if (n.kind == "stmt" and isinstance(a, (ast.Assign, ast.AnnAssign))) else False
+                    is_none = val is None or (isinstance(val, ast.Constant) and val.value is None) \
+                        or (isinstance(val, ast.Name) and val.id in nones)
+                    plain_t = [x for x in stored if "." not in x and not x.endswith("[]")]
+                    nones = (nones | frozenset(plain_t)) if (is_none and val is not False) else (nones - frozenset(plain_t))
+                return (flag_false, matched, nones)
+
+            visited, parent = explore(cfg, (False, False, frozenset()), transfer)
+            r.count(len(visited))
+            reported = set()
+            seen = set()
+            for (nid, st) in sorted(visited, key=lambda x: (x[0], str(x[1]))):
+                n = cfg.nodes[nid]
+                if not is_return(n) or not (st[0] and st[1]):
+                    continue
+                if nid not in seen:
+                    seen.add(nid)
+                    n_refusals += 1
+                    r.site(fn, n.ast, "return after a refusal")
+                v = n.ast.value
+                rv = fnorm.resolve(n, v) if v is not None else None
+                what = None
+                if rv is None or (isinstance(rv, ast.Constant) and rv.value is None):
+                    what = "returns None"
+                elif isinstance(rv, ast.Call) and idx.resolve_expr(fn.module, rv.func) is unk:
+                    err = [a for (p, a) in _ctor_pairs(idx, unk, rv) if p == "error"]
+                    e = err[0] if err else None
+                    if e is None or (isinstance(e, ast.Constant) and e.value is None):
+                        what = "returns %s, an UnknownURI without error" % src(fn, rv)
+                    elif isinstance(e, ast.Name) and e.id in st[2]:
+                        what = "returns %s where %s is still None" % (src(fn, rv), e.id)
+                if what and nid not in reported:
+                    reported.add(nid)
+                    w = witness(cfg, parent, (nid, st))
+                    r.violation(fn, fn.loc(n.ast), "%s %s after a recognised kind was refused because of an 'ro.'/'imm.' prefix "
+                                "or the deep-immutable context: the refusal is not reported, UnknownNode keeps the cap (a write "
+                                "cap behind 'ro.', a mutable cap behind 'imm.') as an acceptable read-only/immutable one "
+                                "(path: %s)" % (fn.name, what, w.brief(12)), w)
+        if not n_refusals:
+            raise AnchorVanished("no return of from_string is reached after a refused kind (prefix test held, flag false)")
